@@ -30,6 +30,8 @@ def beh(kind='relay', tseq=(), skip=(), slow=False, lazy=False, ren=(), hid=Fals
 
 
 class Topo:
+    sub_hwm = 0       # OFP!SubHWM: 0 = no flow control (a class default: old topology dictionaries need not carry it)
+
     def __init__(self, name, filters, *, maxseq=2, conn_ticks=0, pub_hwm=20, push_hwm=3, handshake=True,
                  topic_order=('main', 'b', 'c', HTOPIC)):
         """filters: ordered dict name -> dict(srcs=[src...], nout=int, outbal=bool, srcbal=bool, required=[...], beh=beh())"""
@@ -143,7 +145,7 @@ class Topo:
         lines = ['CONSTANTS', '  Filters <- cFilters', '  Srcs <- cSrcs', '  NOut <- cNOut', '  OutBal <- cOutBal',
                  '  SrcBal <- cSrcBal', '  Required <- cRequired', '  Beh <- cBeh', '  FIdx <- cFIdx',
                  '  TopicOrder <- cTopicOrder',
-                 f'  MaxSeq = {self.maxseq}', f'  ConnTicks = {self.conn_ticks}', f'  PubHWM = {self.pub_hwm}',
+                 f'  MaxSeq = {self.maxseq}', f'  ConnTicks = {self.conn_ticks}', f'  PubHWM = {self.pub_hwm}', f'  SubHWM = {self.sub_hwm}',
                  f'  PushHWM = {self.push_hwm}', f'  Handshake = {str(self.handshake).upper()}',
                  f'  Defects = {self._set(defects)}', f'  MaxFaults = {max_faults}',
                  f'  FaultKinds = {self._set(fault_kinds)}', f'  Victims = {self._set(victims)}',
